@@ -146,6 +146,30 @@ def install():
 
     torch.randperm, torch.rand, torch.randn = randperm, rand, randn
 
+    # the *_like variants reach the same generator: recorded / scripted through the same channels
+    orig_rand_like, orig_randn_like = torch.rand_like, torch.randn_like
+
+    @functools.wraps(orig_rand_like)
+    def rand_like(inp, *args, **kwargs):
+        out = orig_rand_like(inp, *args, **kwargs)
+        if REC.active:
+            if REC.rand_script is not None:
+                if REC.rand_script and REC.rand_script[0].shape == out.shape:
+                    out = REC.rand_script.pop(0).to(dtype=out.dtype)
+                else:
+                    REC.script_underflow += 1
+            REC.rand_draws.append(out.detach().clone())
+        return out
+
+    @functools.wraps(orig_randn_like)
+    def randn_like(inp, *args, **kwargs):
+        out = orig_randn_like(inp, *args, **kwargs)
+        if REC.active:
+            REC.randn_draws.append(out.detach().clone())
+        return out
+
+    torch.rand_like, torch.randn_like = rand_like, randn_like
+
     # ---- cvxpy.Problem.solve --------------------------------------------------------------
     try:
         import cvxpy as cp
